@@ -4,6 +4,7 @@ import common
 from common import show_floats, show_ints
 import tprog, gen_dag, gen_ops
 
+tprog.LAYOUTS = True      # leaves are handed over in C / Fortran / strided / negative-stride / offset / transposed layouts
 PROP = 'C01'
 LEAN_TARGETS = ['Props.C01']
 REQUIRED_THEOREMS = ['Props.C01.transpose_vjp', 'Props.C01.movedim_vjp', 'Props.C01.reshape_vjp', 'Props.C01.slice_vjp',
